@@ -225,7 +225,7 @@ def rerun_unit_for(mod, unit, sig, key):
 
 
 def write_replay(prop_id, sig, key, case, detail):
-    d = os.path.join(VERIF, 'replays')
+    d = os.environ.get('VERIF_REPLAY_DIR') or os.path.join(VERIF, 'replays')
     os.makedirs(d, exist_ok=True)
     body = {'property': prop_id, 'signature': sig, 'key': key, 'case': jsonable(case), 'detail': detail}
     h = hashlib.sha1(json.dumps([sig, key], sort_keys=True).encode()).hexdigest()[:12]
@@ -374,7 +374,7 @@ def write_evidence(mod, tier, seed, total, wall, nviol, nunits):
         'wall_s': round(wall, 2),
         'violations': int(nviol),
     }
-    d = os.path.join(VERIF, 'evidence')
+    d = os.environ.get('VERIF_EVIDENCE_DIR') or os.path.join(VERIF, 'evidence')
     os.makedirs(d, exist_ok=True)
     tmp = os.path.join(d, '.%s.json.tmp' % mod.ID)
     with open(tmp, 'w') as fh:
